@@ -118,8 +118,9 @@ def run(ctx):
                 if s2.get("rv") and s2["rv"]["k"] == "use" and op_place(s2["rv"]["op"]) == (cur,) and len(s2["p"]) == 1:
                     nxt = s2["p"][0]
             cur = nxt
-        sipped = [P.rel(s2["sp"]) for b2, i2, s2 in b.stmts() if s2.get("rv") and s2["rv"]["k"] == "ref" and s2["rv"].get("bk") == "mut" and
-                  len(s2["rv"]["place"]) == 1 and s2["rv"]["place"][0] in chain]
+        # (one borrow expression is one borrow, also when normalisation copied the block it stands in: keyed by its full span)
+        sipped = sorted({str(s2["sp"]): P.rel(s2["sp"]) for b2, i2, s2 in b.stmts() if s2.get("rv") and s2["rv"]["k"] == "ref" and s2["rv"].get("bk") == "mut" and
+                         len(s2["rv"]["place"]) == 1 and s2["rv"]["place"][0] in chain}.values())
         # (a `for` loop over it is one consumer: one mutable borrow, in the loop; an adaptor chain handed to collect / extend is one
         # consumer: no mutable borrow at all)
         byvalue = [1 for b2, t2 in b.calls() for a_ in t2["args"][:1] if op_place(a_) and op_place(a_)[0] in chain and len(op_place(a_)) == 1 and
